@@ -116,6 +116,32 @@ impl PathBuf {
     pub fn set_extension(&mut self, ext: &str) -> (r: bool)
         ensures final(self)@ == path_set_ext(old(self)@, ext@),
     { unimplemented!() }
+
+    /// `Path::with_extension(ext)` (std docs: "Creates an owned PathBuf like
+    /// self but with the given extension. See PathBuf::set_extension").
+    #[verifier::external_body]
+    pub fn with_extension(&self, ext: &str) -> (r: PathBuf)
+        ensures r@ == path_set_ext(self@, ext@),
+    { unimplemented!() }
+
+    /// `PathBuf::push(name)` (std docs of `Path::join`: "Creates an owned
+    /// PathBuf with path adjoined to self. See PathBuf::push").
+    #[verifier::external_body]
+    pub fn push(&mut self, name: String)
+        ensures final(self)@ == path_join(old(self)@, name@),
+    { unimplemented!() }
+
+    /// `PathBuf::as_path` / `Path::to_path_buf`: the same path
+    #[verifier::external_body]
+    pub fn as_path(&self) -> (r: &Path)
+        ensures r@ == self@,
+    { unimplemented!() }
+}
+impl Path {
+    #[verifier::external_body]
+    pub fn to_path_buf(&self) -> (r: PathBuf)
+        ensures r@ == self@,
+    { unimplemented!() }
 }
 impl Clone for PathBuf {
     #[verifier::external_body]
@@ -175,6 +201,15 @@ impl File {
                 && r.unwrap()@ == (FileV { path: path.pv(), pos: 0, snap: Seq::<u8>::empty() }),
     { unimplemented!() }
 
+    /// `File::sync_all` / `sync_data`: durability only — no effect on the
+    /// logical content in this model (no crashes, see the header).
+    #[verifier::external_body]
+    pub fn sync_all(&self) -> (r: Result<()>)
+    { unimplemented!() }
+    #[verifier::external_body]
+    pub fn sync_data(&self) -> (r: Result<()>)
+    { unimplemented!() }
+
     /// `File::open`: read-only; Ok only for an existing regular file.
     #[verifier::external_body]
     pub fn open<P: PathLike>(fs: &Fs, path: P) -> (r: Result<File>)
@@ -231,6 +266,13 @@ impl BufWriter<File> {
     pub fn flush(&mut self) -> (r: Result<()>)
         ensures final(self)@ == old(self)@,
     { unimplemented!() }
+
+    /// `AsyncWriteExt::shutdown`: flushes, then shuts the writer down; like
+    /// `flush` no effect on the logical content; may fail
+    #[verifier::external_body]
+    pub fn shutdown(&mut self) -> (r: Result<()>)
+        ensures final(self)@ == old(self)@,
+    { unimplemented!() }
 }
 
 /// tokio_util::io::ReaderStream<File> (tokio-util-0.7 src/io/reader_stream.rs):
@@ -279,13 +321,25 @@ impl Bytes {
         ensures r == self@.len(),
     { unimplemented!() }
 }
+impl Bytes {
+    #[verifier::external_body]
+    pub fn is_empty(&self) -> (r: bool)
+        ensures r == (self@.len() == 0),
+    { unimplemented!() }
+    /// `Bytes: Deref<Target = [u8]>`, `<[u8]>::to_vec`
+    #[verifier::external_body]
+    pub fn to_vec(&self) -> (r: Vec<u8>)
+        ensures r@ == self@,
+    { unimplemented!() }
+}
 impl BytesLike for &Bytes { open spec fn bytes(&self) -> Seq<u8> { (*self)@ } }
+impl BytesLike for Bytes { open spec fn bytes(&self) -> Seq<u8> { self@ } }
 
 /// tokio::fs free functions (tokio-1.x src/fs/{try_exists,create_dir_all,rename}.rs)
 pub mod tokio {
     pub mod fs {
         use vstd::prelude::*;
-        use super::super::{Fs, PathLike, Result, fs_exists, Metadata};
+        use super::super::{Fs, PathLike, Result, fs_exists, Metadata, BytesLike, files_same_except};
 
         /// Ok(b): `b` tells whether the path exists (file or directory)
         #[verifier::external_body]
@@ -317,11 +371,51 @@ pub mod tokio {
         pub fn metadata<P: PathLike>(fs: &Fs, path: P) -> (r: Result<Metadata>)
             ensures r.is_ok() && fs@.files.contains_key(path.pv()) ==> r.unwrap().len_spec() == fs@.files[path.pv()].len(),
         { unimplemented!() }
+
+        /// unlink(2): Ok removes the regular file; Err changes nothing
+        /// (tokio-1.x src/fs/remove_file.rs -> std::fs::remove_file).
+        #[verifier::external_body]
+        pub fn remove_file<P: PathLike>(fs: &mut Fs, path: P) -> (r: Result<()>)
+            ensures
+                r.is_err() ==> final(fs)@ == old(fs)@,
+                r.is_ok() ==> old(fs)@.files.contains_key(path.pv()) && final(fs)@.dirs == old(fs)@.dirs
+                    && final(fs)@.files == old(fs)@.files.remove(path.pv()),
+        { unimplemented!() }
+
+        /// std::fs::copy: "copies the contents of one file to another ...
+        /// will overwrite the contents of `to`"; NOT atomic: on Err `to`
+        /// may hold anything; `from` and every other file are untouched.
+        #[verifier::external_body]
+        pub fn copy<P: PathLike, Q: PathLike>(fs: &mut Fs, from: P, to: Q) -> (r: Result<u64>)
+            ensures
+                files_same_except(old(fs)@, final(fs)@, to.pv()),
+                final(fs)@.dirs == old(fs)@.dirs,
+                r.is_ok() ==> old(fs)@.files.contains_key(from.pv()) && final(fs)@.files.contains_key(to.pv())
+                    && final(fs)@.files[to.pv()] == old(fs)@.files[from.pv()]
+                    && r.unwrap() == old(fs)@.files[from.pv()].len(),
+        { unimplemented!() }
+
+        /// std::fs::read: the whole content of an existing regular file
+        #[verifier::external_body]
+        pub fn read<P: PathLike>(fs: &Fs, path: P) -> (r: Result<Vec<u8>>)
+            ensures r.is_ok() ==> fs@.files.contains_key(path.pv()) && r.unwrap()@ == fs@.files[path.pv()],
+        { unimplemented!() }
+
+        /// std::fs::write: "creates a file if it does not exist, and will
+        /// entirely replace its contents if it does"; NOT atomic: on Err the
+        /// file may hold anything; every other file is untouched.
+        #[verifier::external_body]
+        pub fn write<P: PathLike, B: BytesLike>(fs: &mut Fs, path: P, contents: B) -> (r: Result<()>)
+            ensures
+                files_same_except(old(fs)@, final(fs)@, path.pv()),
+                final(fs)@.dirs == old(fs)@.dirs,
+                r.is_ok() ==> final(fs)@.files.contains_key(path.pv()) && final(fs)@.files[path.pv()] == contents.bytes(),
+        { unimplemented!() }
     }
 }
 /// `use sos_vfs as vfs;` — the same functions (crates/vfs/src/lib.rs)
 pub mod vfs {
-    pub use super::tokio::fs::{try_exists, create_dir_all, rename, metadata};
+    pub use super::tokio::fs::{try_exists, create_dir_all, rename, metadata, remove_file, copy, read, write};
     pub use super::File;
 }
 
@@ -333,25 +427,45 @@ impl OpenOptions {
     pub uninterp spec fn o_create(&self) -> bool;
     pub uninterp spec fn o_truncate(&self) -> bool;
     pub uninterp spec fn o_write(&self) -> bool;
+    pub uninterp spec fn o_append(&self) -> bool;
+    pub uninterp spec fn o_create_new(&self) -> bool;
     #[verifier::external_body]
     pub fn new() -> (r: OpenOptions)
-        ensures !r.o_create() && !r.o_truncate() && !r.o_write(),
+        ensures !r.o_create() && !r.o_truncate() && !r.o_write() && !r.o_append() && !r.o_create_new(),
     { unimplemented!() }
     #[verifier::external_body]
     pub fn create(self, v: bool) -> (r: OpenOptions)
-        ensures r.o_create() == v && r.o_truncate() == self.o_truncate() && r.o_write() == self.o_write(),
+        ensures r.o_create() == v && r.o_truncate() == self.o_truncate() && r.o_write() == self.o_write()
+            && r.o_append() == self.o_append() && r.o_create_new() == self.o_create_new(),
     { unimplemented!() }
     #[verifier::external_body]
     pub fn truncate(self, v: bool) -> (r: OpenOptions)
-        ensures r.o_create() == self.o_create() && r.o_truncate() == v && r.o_write() == self.o_write(),
+        ensures r.o_create() == self.o_create() && r.o_truncate() == v && r.o_write() == self.o_write()
+            && r.o_append() == self.o_append() && r.o_create_new() == self.o_create_new(),
     { unimplemented!() }
     #[verifier::external_body]
     pub fn read(self, v: bool) -> (r: OpenOptions)
-        ensures r.o_create() == self.o_create() && r.o_truncate() == self.o_truncate() && r.o_write() == self.o_write(),
+        ensures r.o_create() == self.o_create() && r.o_truncate() == self.o_truncate() && r.o_write() == self.o_write()
+            && r.o_append() == self.o_append() && r.o_create_new() == self.o_create_new(),
     { unimplemented!() }
     #[verifier::external_body]
     pub fn write(self, v: bool) -> (r: OpenOptions)
-        ensures r.o_create() == self.o_create() && r.o_truncate() == self.o_truncate() && r.o_write() == v,
+        ensures r.o_create() == self.o_create() && r.o_truncate() == self.o_truncate() && r.o_write() == v
+            && r.o_append() == self.o_append() && r.o_create_new() == self.o_create_new(),
+    { unimplemented!() }
+    /// std::fs::OpenOptions::append / create_new: recorded only; `open` below
+    /// promises nothing about content or cursor once either is set (append:
+    /// writes go to the end whatever the cursor; create_new: fails on an
+    /// existing file and ignores create/truncate).
+    #[verifier::external_body]
+    pub fn append(self, v: bool) -> (r: OpenOptions)
+        ensures r.o_create() == self.o_create() && r.o_truncate() == self.o_truncate() && r.o_write() == self.o_write()
+            && r.o_append() == v && r.o_create_new() == self.o_create_new(),
+    { unimplemented!() }
+    #[verifier::external_body]
+    pub fn create_new(self, v: bool) -> (r: OpenOptions)
+        ensures r.o_create() == self.o_create() && r.o_truncate() == self.o_truncate() && r.o_write() == self.o_write()
+            && r.o_append() == self.o_append() && r.o_create_new() == v,
     { unimplemented!() }
     /// std::fs::OpenOptions::open: with create+write the file exists
     /// afterwards; with truncate it is then empty, without it keeps its content.
@@ -360,7 +474,7 @@ impl OpenOptions {
         ensures
             files_same_except(old(fs)@, final(fs)@, path.pv()),
             final(fs)@.dirs == old(fs)@.dirs,
-            r.is_ok() && self.o_create() && self.o_write() ==> final(fs)@.files.contains_key(path.pv())
+            r.is_ok() && self.o_create() && self.o_write() && !self.o_append() && !self.o_create_new() ==> final(fs)@.files.contains_key(path.pv())
                 && final(fs)@.files[path.pv()] == (if self.o_truncate() || !old(fs)@.files.contains_key(path.pv()) { Seq::<u8>::empty() } else { old(fs)@.files[path.pv()] })
                 && r.unwrap()@.path == path.pv() && r.unwrap()@.pos == 0,
     { unimplemented!() }
